@@ -58,6 +58,7 @@ def check_c13(prog, rep, tier, cfg):
     c13e(prog, rep)
     c13f(prog, rep)
     c13g(prog, rep)
+    c13h(prog, rep)
 
 
 def c13g(prog, rep):
@@ -146,6 +147,34 @@ def c13f(prog, rep):
               "the expression then closes the directive; its siblings %s use find_directive_expr_end)" % (bad, [v for v in EXPRESSION_DIRECTIVES if v not in bad]),
               where="%s:%d" % (b.file, b.line), instance={"scanner_by_kind": {k: sorted(v) for k, v in sorted(scanner.items())}})
     rep.floor(R, "directive kinds with a delimiting scanner", len(scanner), 2)
+
+
+def c13h(prog, rep):
+    """C13.h — "token boundaries of string literals agree with the Delphi lexical rules": a literal is a sequence of quoted segments and
+    `#` escapes in any order and number, so the scanner may call a literal complete (SingleLine) only where one of its segment scanners
+    has answered that nothing of the literal follows.  In text_literal every path to the construction of `TextLiteral(SingleLine)`
+    passes the `Stop` arm of a test on the result of a segment scanner: a return that decides from the opening quotes alone (an even
+    run of quotes, a closing quote ..) cuts an empty literal followed by `#13#10` into two tokens."""
+    R = "C13.h"
+    from progress import variant_arms
+    b = prog.body(LX + "text_literal")
+    if not rep.check(b is not None, R, "anchor:text_literal", "text_literal not found"):
+        return
+    done = {bb for bb, i, st in b.stmts() if st["k"] == "assign" and st["rv"]["k"] == "aggregate" and st["rv"].get("variant") == "SingleLine"
+            and norm(st["rv"].get("adt", "")).endswith("TextLiteralKind")}
+    stops = set()
+    scanners = set()
+    for sw, key, arms, other in variant_arms(prog, b):
+        if "Stop" in arms and key.split("(")[0].startswith("consume_"):
+            stops.add(arms["Stop"])
+            scanners.add(key.split("(")[0])
+    if not rep.check(bool(done) and bool(stops), R, "anchor:segment-loop", "text_literal no longer builds SingleLine after testing its segment scanners for `Stop` (done=%d, stop arms=%d)" % (len(done), len(stops))):
+        return
+    early = [d for d in sorted(done) if b.can_reach_avoiding(0, {d}, stops)]
+    rep.check(not early, R, "single-line-literal-ends-where-a-segment-scanner-stops",
+              "text_literal can call a literal complete (TextLiteral(SingleLine)) on a path on which no segment scanner has answered `Stop`: escapes or quoted segments that follow "
+              "directly (an empty literal followed by #13#10) are cut off into a token of their own", where="%s:%d" % (b.file, b.line),
+              instance={"segment_scanners": sorted(scanners), "stop_arms": len(stops), "completions": len(done)})
 
 
 def c13a(prog, rep):
